@@ -441,6 +441,27 @@ def run(ctx):
                             for p_ in sub:
                                 if p_ - 1 < len(cs_.args):
                                     got |= {y[1] for y in pr_.operand(cs_.args[p_ - 1]) if y[0] == "arg" and not y[2]}
+                        else:
+                            # a helper that only clamps / casts its argument (`to_bucket_value(scale_up(v))`): look at what it is given
+                            hpr = Prov(hb)
+                            ro_, hw, hs = set(), list(hpr.local(0)), set()
+                            while hw:
+                                y = hw.pop()
+                                if y in hs:
+                                    continue
+                                hs.add(y)
+                                if y[0] == "call":
+                                    hc = CallSite(hb, y[1], hb.term(y[1]))
+                                    if hc.name in ("min", "max") and hc.def_.startswith(("core::", "std::")) and hc.args:
+                                        hw += list(hpr.operand(hc.args[0]))
+                                    else:
+                                        ro_.add(("other",))
+                                elif y[0] == "arg" and not y[2]:
+                                    ro_.add(y)
+                            if ro_ and all(y[0] == "arg" for y in ro_):
+                                for y in ro_:
+                                    if y[1] - 1 < len(cs_.args):
+                                        work_ += list(pr_.operand(cs_.args[y[1] - 1]))
             return got if scaled else None
         s = None
         if len(adds) == 1:
